@@ -365,3 +365,40 @@ mod tests {
         assert!(result.is_err());
     }
 }
+
+#[cfg(feature = "verif")]
+impl CharInfo {
+    pub const fn verif_from_raw(raw: u32) -> Self {
+        Self(raw)
+    }
+
+    pub const fn verif_raw(&self) -> u32 {
+        self.0
+    }
+}
+
+#[cfg(feature = "verif")]
+impl CharProperty {
+    pub const fn verif_from_parts(chr2inf: Vec<CharInfo>, categories: Vec<String>) -> Self {
+        Self {
+            chr2inf,
+            categories,
+        }
+    }
+
+    pub fn verif_chr2inf(&self) -> &[CharInfo] {
+        &self.chr2inf
+    }
+
+    pub fn verif_categories(&self) -> &[String] {
+        &self.categories
+    }
+
+    pub fn verif_parse_char_category(line: &str) -> Result<(String, bool, bool, u16)> {
+        Self::parse_char_category(line)
+    }
+
+    pub fn verif_parse_char_range(line: &str) -> Result<(usize, usize, Vec<String>)> {
+        Self::parse_char_range(line).map(|r| (r.start, r.end, r.categories))
+    }
+}
